@@ -75,7 +75,8 @@ impl<'a> Cur<'a> {
             235..=249 => 31,
             _ => {
                 if inv {
-                    32 + (self.u8() % 3) as usize
+                    // just over the limit, and values that alias a legal count when truncated to 8 bits
+                    [32usize, 33, 34, 255, 256, 257, 272, 287, 288, 512, 543][(self.u8() % 11) as usize]
                 } else {
                     31
                 }
@@ -89,6 +90,7 @@ impl<'a> Cur<'a> {
             0..=79 => (s % 12) as usize,
             80..=99 => max - (s as usize - 80) % 5.min(max + 1),
             100..=109 if inv => max + 1 + (s as usize - 100) % 3,
+            110..=115 if inv => [256usize, 257, 260, 300, 511, 512][s as usize - 110],
             _ => self.u8() as usize % (max + 1),
         }
     }
